@@ -851,6 +851,28 @@ pub fn corner_extras() -> Vec<SysSpec> {
     out.push(mk("X-falsebad", vec![("b1", 1)], vec![st("a2", 2, Some(l(2, 0)), Some(b(Bin::Add, a(), T::ZExt(1, Box::new(f())))))], vec![l(1, 0), b(Bin::Eq, a(), l(2, 2))], vec![]));
     out.push(mk("X-falsebad", vec![], vec![st("a2", 2, Some(l(2, 0)), Some(inc(a())))], vec![b(Bin::Eq, a(), l(2, 3)), l(1, 0), b(Bin::Ugt, a(), l(2, 1))], vec![]));
     out.push(mk("X-falsebad", vec![("b1", 1)], vec![st("a2", 2, Some(l(2, 0)), Some(inc(a())))], vec![b(Bin::And, f(), T::not(f())), l(1, 0), b(Bin::And, f(), b(Bin::Eq, a(), l(2, 1)))], vec![]));
+    // a memory (index width != data width) that is cleared to a NON-literal fill value (an input / a changing
+    // state): the constant array is rebuilt whenever its fill expression is rewritten (step renaming, simplification)
+    {
+        let m = || T::Sym("m1_2".into(), Ty::Arr(1, 2));
+        let d = || s("b2", 2);
+        let clr = || s("b1", 1);
+        let cnt = || s("a2", 2);
+        let at1 = || T::Read(Box::new(m()), Box::new(l(1, 1)));
+        for (fill, init) in [(d(), Some(T::AConst(1, Box::new(l(2, 0))))), (cnt(), None), (b(Bin::Add, d(), cnt()), Some(T::AConst(1, Box::new(l(2, 1)))))] {
+            out.push(SysSpec {
+                name: "X-constarr".into(),
+                inputs: vec![("b1".into(), Ty::Bv(1)), ("b2".into(), Ty::Bv(2))],
+                states: vec![
+                    StateSpec { name: "a2".into(), ty: Ty::Bv(2), init: Some(l(2, 0)), next: Some(inc(cnt())) },
+                    StateSpec { name: "m1_2".into(), ty: Ty::Arr(1, 2), init, next: Some(T::ite(clr(), T::AConst(1, Box::new(fill.clone())), T::Store(Box::new(m()), Box::new(l(1, 1)), Box::new(d())))) },
+                ],
+                outputs: vec![],
+                bads: vec![b(Bin::Eq, at1(), l(2, 3)), b(Bin::Eq, T::AConst(1, Box::new(fill)), m())],
+                constraints: vec![],
+            });
+        }
+    }
     // the same shapes without entries in the system's name table (see SysSpec::build)
     let unnamed: Vec<SysSpec> = out
         .iter()
